@@ -103,7 +103,7 @@ def dist_oracle(res, m):
 def oracle_spec(rng, fam, cls, gates, dp_kind, n, length, shots, psi="rand", two=True, classical=False, full=False):
     """a valid case: labels 0..n-1 for the layered classes, scattered labels and distant pairs for BinaryCircuit"""
     binary = cls == "BinaryCircuit"
-    nphys = n + rng.randint(0, 3) if binary else n
+    nphys = n + rng.choice([0, 1, 2, 3, 9, 30, 62]) if binary else n     # scattered labels beyond 8 and beyond 32 as well
     labels = sorted(rng.sample(range(nphys), n)) if binary else list(range(n))
     if classical:
         ins = [["rz", [q], [], [0.0]] for q in rng.sample(labels, n)]
@@ -329,7 +329,7 @@ def main(argv):
     sim = get_sim(BinaryCircuit, noise_free_gates)
     lay_cases = []
     for _ in range(300 if ck.tier == "quick" else 2000):
-        nphys = ck.rng.randint(1, 7)
+        nphys = ck.rng.choice([ck.rng.randint(1, 7), ck.rng.randint(8, 20), ck.rng.randint(33, 70)])   # labels >= 8 / >= 32 too: physical labels are arbitrary
         labels = sorted(ck.rng.sample(range(nphys), ck.rng.randint(1, min(nphys, 5))))
         ins = H.rand_instrs(ck.rng, labels, ck.rng.randint(0, 12), adjacent=False)
         ins = ins[ck.rng.randint(0, len(labels)):]       # drop part of the touch-everything prelude
